@@ -90,8 +90,31 @@ def range_get_rules(ctx, prog, rid):
             while h2 is not None and h2.k != 'DeclStmt':
                 h2 = h2.parent
             itdecl = h2.r['decls'][0][0] if h2 is not None else None
+        def ex(n, _g=g, _gc=gc):
+            """a const local initialised once inside the loop body stands for its initialiser (it is re-evaluated for every record: the iterator step cannot
+            lie between its declaration and a use without the declaration being passed again)"""
+            s0 = n.strip(casts=True)
+            if s0.k == 'DeclRefExpr' and s0.decl is not None and s0.decl.get('sc') == 'local' and s0.declid != itdecl:
+                defs_ = q.local_defs(_g, s0.declid)
+                if len(defs_) == 1 and defs_[0][1] == 'init' and defs_[0][2] is not None and _gc.has_vertex(defs_[0][0]) and _gc.has_vertex(s0):
+                    dv_, uv_ = _gc.vertex_of(defs_[0][0]), _gc.vertex_of(s0)
+                    stepped = [x for x in _g.all_nodes() if x.is_call and x.r.get('op') == '++' and itdecl is not None and
+                               ((x.obj is not None and q.refers_to_decl(x.obj, itdecl)) or (x.args and q.refers_to_decl(x.args[0], itdecl)))]
+                    if all(not _gc.has_vertex(st_) or _gc.path(_gc.vertex_of(st_), lambda v, _u=uv_: v == _u, avoid={dv_}) is None for st_ in stepped):
+                        return defs_[0][2].strip(casts=True)
+            return s0
+
+        def walk_ex(n):
+            for x in n.walk():
+                yield x
+                if x.k == 'DeclRefExpr':
+                    e_ = ex(x)
+                    if e_ != x.strip(casts=True):
+                        for y in e_.walk():
+                            yield y
+
         def key_of_iter(n):
-            s = n.strip(casts=True)
+            s = ex(n)
             return s.k == 'MemberExpr' and s.decl and s.decl.get('n') == 'first' and itdecl is not None and any(
                 x.k == 'DeclRefExpr' and x.declid == itdecl for x in s.walk())
         stops = q.branches(g, lambda a: a.strip(casts=True).k == 'BinaryOperator' and a.strip(casts=True).op in ('>', '>=', '<', '<=') and
@@ -145,12 +168,12 @@ def range_get_rules(ctx, prog, rid):
                             buf = rd[0].args[1].strip(casts=True)
                             sz = rd[0].args[2]
                             off = sk[0].args[1]
-                            good = (any(x.k == 'MemberExpr' and x.decl.get('n') == '_size' for x in sz.walk()) and
-                                    any(x.k == 'MemberExpr' and x.decl.get('n') == '_offset' for x in off.walk()) and
-                                    any(x.k == 'DeclRefExpr' and x.declid == itdecl for x in sz.walk()) and
-                                    any(x.k == 'DeclRefExpr' and x.declid == itdecl for x in off.walk()) and
+                            good = (any(x.k == 'MemberExpr' and x.decl.get('n') == '_size' for x in walk_ex(sz)) and
+                                    any(x.k == 'MemberExpr' and x.decl.get('n') == '_offset' for x in walk_ex(off)) and
+                                    any(x.k == 'DeclRefExpr' and x.declid == itdecl for x in walk_ex(sz)) and
+                                    any(x.k == 'DeclRefExpr' and x.declid == itdecl for x in walk_ex(off)) and
                                     any(x.k == 'DeclRefExpr' and x.declid == buf.declid for x in second.walk()) and
-                                    any(x.k == 'MemberExpr' and x.decl.get('n') == '_size' for x in second.walk()))
+                                    any(x.k == 'MemberExpr' and x.decl.get('n') == '_size' for x in walk_ex(second)))
                         ctx.check(good, rid, cls + '::get#record.bytes', cb.loc,
                                   'the callback is given exactly _size bytes read at the record\'s _offset')
         ctx.check(recs == 1, rid, cls + '::get#record.once', g.loc, 'one record callback site')
